@@ -363,6 +363,11 @@ def splice_fn(it_spec, item, contract, unit, em, extraction, active=None, featur
                 emit_clauses(cl, em, key, sec)
         for c in select(contract.get("sigtail"), active):
             em.add("    " + c.text.rstrip(), item=key, part="sigtail", origin=c.origin)
+    if it_spec.get("assumed"):
+        contract_body = None   # assumed item: only requires / ensures are kept
+    else:
+        contract_body = contract
+    contract = contract_body
     # loops: splice from the last to the first so offsets stay valid
     if contract is not None:
         for sec in list(contract.sections):
@@ -402,7 +407,7 @@ def splice_fn(it_spec, item, contract, unit, em, extraction, active=None, featur
         etxt = "\n".join("/*@entry*/ " + c.text for c in entry)
         body = "{\n" + etxt + "\n" + body.lstrip()[1:]
     emit_body(body, key, em)
-    extraction.append(dict(key=key, file=os.path.relpath(item.path, REPO), lines=[a, b], sha256=h,
+    extraction.append(dict(key=key, file=os.path.relpath(item.path, REPO), lines=[a, b], sha256=h, inactive=bool(it_spec.get("_inactive")),
                            rules=[dict(rule=r, original=o) for r, o in log]))
 
 
@@ -564,8 +569,12 @@ def generate(unit_dir, features=("parallel", "shred-derive"), mode="T", active=N
     for it_spec in unit["items"]:
         if "cfg" in it_spec and not all((c in features) for c in it_spec["cfg"]):
             continue
-        if it_spec.get("groups") and active is not None and not (set(it_spec["groups"]) & active):
-            continue   # item only matters to other properties
+        if it_spec.get("groups") and active is not None and not (set(it_spec["groups"]) & (active | {CURRENT_MODE[0]})):
+            if "text" in it_spec or it_spec.get("kind") != "fn":
+                continue
+            # the function only matters to other properties: keep its signature (trait impls stay complete), drop its body;
+            # none of its remaining clauses belongs to the property being checked
+            it_spec = dict(it_spec, assumed="body not needed for this property (verified under its own groups)", sig_prefix="#[verifier::external_body]", _inactive=True)
         if "text" in it_spec:  # literal verus text from the unit (spec helpers between items)
             if cur_owner is not None:
                 em.add("}", part="gen")
@@ -603,7 +612,7 @@ def generate(unit_dir, features=("parallel", "shred-derive"), mode="T", active=N
             emit_plain(it_spec, item, unit, em, extraction, features)
     if cur_owner is not None:
         em.add("}", part="gen")
-    skipped = set(i["key"] for i in unit["items"] if "key" in i and i.get("groups") and active is not None and not (set(i["groups"]) & active))
+    skipped = set()
     skipped |= set(i["key"] for i in unit["items"] if "key" in i and "cfg" in i and not all((c in features) for c in i["cfg"]))
     unused = set(contracts) - used - skipped
     if unused:
